@@ -12,7 +12,7 @@ RULE = ("every object whose `code` section has size in SIZES (empty, 1, around t
         "section address; each object is written with write_srecord and the text is (a) checked record by record and decoded by a reader "
         "written from the Motorola S-record definition, (b) decoded by BFD (objdump -s -b srec; objdump -h + objcopy -O binary for the "
         "16 MiB objects); both must give exactly the code bytes at the section's addresses; distinct non-trivial = distinct "
-        "(record types used, number of records, verdict classes)")
+        "(record prefixes used in the text, number of lines, verdict classes)")
 ASSUMPTIONS = [
     "reference reader/checker written in /verif from the Motorola S-record definition (M68000 family programmer's reference, appendix C / "
     "unix srec(5)): 'S', type digit 0-9 except 4, count = address + data + checksum bytes, address width 2/3/4 by type, checksum = ones' "
@@ -188,7 +188,10 @@ def judge(text, code, base):
                     [(hex(a), len(d)) for a, d in mem][:4], len(code), base)
         for k, v in found.items():
             classes.setdefault(k, v)
-    shape = (tuple(sorted({t for t, a, pl in records})), min(len(records), 40) if len(records) < 3000 else len(records) // 1000 * 1000)
+    # shape of the text itself (independent of whether the records parse): record prefixes used, number of lines
+    lines = text.split("\n")
+    nl = len(lines) - 1
+    shape = (tuple(sorted({ln[:2] for ln in lines if ln})), nl if nl < 3000 else nl // 1000 * 1000)
     return classes, notes, shape, mem == want
 
 
